@@ -221,7 +221,7 @@ prop(
         "suffices); an item error may surface at any position of the failing item's validation batch; a panic of the validator's "
         "drop check after the join's outcome was decided is counted (validated_validator_drop_panics_after_outcome), not judged here",
     ],
-    builds={"quick": ["b1"], "thorough": ["b1", "b4", "miri"]},
+    builds={"quick": ["b1"], "thorough": ["b1", "b4", "miri", "tsan"]},
     shards={"quick": 8, "thorough": 16},
     min_evaluations={"quick": 150000, "thorough": 1000000},
     must_see=[("variants", 16), ("windows", 8), ("pending_returns", 20000), ("lower_bound_checks_need_ge2", 5000),
@@ -405,7 +405,7 @@ prop(
 prop(
     "C14",
     level="exploration",
-    builds={"quick": ["b1", "b2"], "thorough": ["b1", "b2", "miri"]},
+    builds={"quick": ["b1", "b2"], "thorough": ["b1", "b2", "miri", "tsan"]},
     rule=("ring buffer: every op sequence over {write one unit, take, close} of depth 8 (thorough 9) from every reachable cursor "
           "origin for 45 (capacity, write size, read size) triples (1-5 units, unit 1-3 bytes, incl. non-power-of-two) plus seeded "
           "sequences of 40-800 ops on capacities up to 24 units, each in lock-step with a reference VecDeque<u8>; distinct by "
@@ -587,7 +587,7 @@ prop(
         "non-completion is decided by shuttle's deadlock report or by quiescence under tokio's paused clock (60 virtual seconds), never by wall time",
         "in-memory transport (TestWorld); default role assignment",
     ],
-    builds={"quick": ["b1", "b2"], "thorough": ["b1", "b2"]},
+    builds={"quick": ["b1", "b2"], "thorough": ["b1", "b2", "tsan"]},
     shards={"quick": 8, "thorough": 16},
     min_evaluations={"quick": 30000, "thorough": 300000},
     must_see=[("widths", 10), ("message_types", 14), ("total_classes", 7), ("channel_kinds", 7), ("actives", 3), ("shard_counts", 3),
